@@ -247,7 +247,7 @@ pub struct Explored {
 }
 
 pub fn replay_json(cfg: &Cfg, b: &Bounds, h: &[Action]) -> Value {
-    json!({"engine":"cluster","config":{"nodes":cfg.n,"big_values":cfg.vals.len()>3,"grace_ms":cfg.grace_ms,"bounds":b.name},
+    json!({"engine":"cluster","config":{"nodes":cfg.n,"big_values":cfg.vals.len()>3,"grace_ms":cfg.grace_ms,"bounds":b.name,"mapped_addr_nodes":cfg.mapped_addr_nodes,"same_node_id_as_0":cfg.same_node_id_as_0},
            "actions": h.iter().map(|a| a.to_json(cfg)).collect::<Vec<_>>()})
 }
 
@@ -705,6 +705,11 @@ pub fn plans(props: &[&'static str], tier: Tier) -> Vec<Plan> {
         c.mapped_addr_nodes = vec![0];
         Arc::new(c)
     };
+    let small3_twins = || {
+        let mut c = Cfg::simple(3, false, props);
+        c.same_node_id_as_0 = vec![1];
+        Arc::new(c)
+    };
     let cap = tier.pick(2_000_000, 5_000_000);
     let p = |cfg: Arc<Cfg>, bounds: Bounds, secs: u64| Plan { cfg, bounds, secs, prefix: vec![] };
     let pr = |cfg: Arc<Cfg>, bounds: Bounds, secs: u64, root: &str| Plan { cfg, bounds: Bounds { name: format!("{}@{}", bounds.name, root), ..bounds }, secs, prefix: big_root(root) };
@@ -724,6 +729,7 @@ pub fn plans(props: &[&'static str], tier: Tier) -> Vec<Plan> {
             p(small2(), mk("hs-2nodes-restart", true, &[0], &[Call::Set, Call::Delete], 2, &[1], [2, 0, 0, 0, 0, 3, 1], cap), 8),
             p(small3_mapped(), mk("hs-3nodes-owner-on-ipv4-mapped-address", true, &[0], &[Call::Set, Call::Delete], 2, &[1], [2, 0, 0, 0, 0, 3, 0], cap), 8),
             pr(small3(), mk("hs-3nodes-small-values-2writers", true, &[0, 1], &[Call::Set, Call::Delete], 2, &[1], [1, 0, 0, 0, 0, 3, 0], cap), 6, "two-owners-collected"),
+            p(small3_twins(), mk("hs-3nodes-two-members-differing-by-address-only", true, &[0, 1], &[Call::Set, Call::Delete], 2, &[1], [2, 0, 0, 0, 0, 3, 0], cap), 6),
         ],
         Tier::Thorough => vec![
             // message granularity
@@ -749,6 +755,7 @@ pub fn plans(props: &[&'static str], tier: Tier) -> Vec<Plan> {
             p(small3(), mk("hs-3nodes-small-values-2writers", true, &[0, 1], &all, 2, &[1, 2], [4, 0, 0, 2, 1, 5, 0], cap), 300),
             p(small4(), mk("hs-4nodes-small-values", true, &[0], &all, 3, &[1, 2], [3, 0, 0, 1, 1, 5, 0], cap), 300),
             pr(small3(), mk("hs-3nodes-small-values-2writers", true, &[0, 1], &three, 2, &[1, 2], [2, 0, 0, 1, 1, 4, 0], cap), 200, "two-owners-collected"),
+            p(small3_twins(), mk("hs-3nodes-two-members-differing-by-address-only", true, &[0, 1], &three, 2, &[1, 2], [3, 0, 0, 1, 1, 4, 0], cap), 200),
         ],
     }
 }
@@ -854,7 +861,11 @@ pub fn replay_file(v: &Value) -> Result<(), String> {
     let n = v["config"]["nodes"].as_u64().unwrap_or(3) as usize;
     let big = v["config"]["big_values"].as_bool().unwrap_or(false);
     let all: Vec<&'static str> = vec!["C01", "C02", "C03", "C04", "C05", "C07", "C08", "C20"];
-    let cfg = Arc::new(Cfg::simple(n, big, &all));
+    let mut cfg = Cfg::simple(n, big, &all);
+    let idx = |k: &str| -> Vec<usize> { v["config"][k].as_array().map(|a| a.iter().filter_map(|x| x.as_u64().map(|y| y as usize)).collect()).unwrap_or_default() };
+    cfg.mapped_addr_nodes = idx("mapped_addr_nodes");
+    cfg.same_node_id_as_0 = idx("same_node_id_as_0");
+    let cfg = Arc::new(cfg);
     let actions: Vec<Action> = v["actions"].as_array().ok_or("no actions")?.iter().filter_map(|a| Action::from_json(a, &cfg)).collect();
     let mut w = World::new(cfg.clone());
     let mut bad = None;
